@@ -318,20 +318,25 @@ fn run(ctx: &mut Ctx) {
     stream_stratum(ctx, scoping_core(true), 1, if th { 7 } else { 6 }, &mut idx, "asts_scoping_core", 0, 0, 5);
     // names with non-ASCII letters, apostrophes and one name a prefix of another
     {
-        fn ren(a: &Ast) -> Ast {
-            let r = |n: &String| match n.as_str() {
-                "a" => "a\u{e9}".to_string(),
-                "b" => "a".to_string(),
-                "X" => "X\u{3b2}'".to_string(),
-                o => o.to_string(),
+        fn ren(a: &Ast, set: usize) -> Ast {
+            let ren = |x: &Ast| ren(x, set);
+            let r = |n: &String| match (set, n.as_str()) {
+                (0, "a") => "a\u{e9}".to_string(),
+                (0, "b") => "a".to_string(),
+                (0, "X") => "X\u{3b2}'".to_string(),
+                // names that differ only in letter case, one of them the fixed-point binder
+                (1, "a") => "x".to_string(),
+                (1, "b") => "Q".to_string(),
+                (1, "X") => "X".to_string(),
+                (_, o) => o.to_string(),
             };
             match a {
                 Ast::Var(v) => Ast::Var(r(v)),
                 Ast::Not(x) => Ast::Not(Box::new(ren(x))),
                 Ast::Q(e, vs, b) => Ast::Q(*e, vs.iter().map(r).collect(), Box::new(ren(b))),
                 Ast::Fp(x, g, b) => Ast::Fp(r(x), *g, Box::new(ren(b))),
-                Ast::CC(o, l, n) => Ast::CC(*o, l.iter().map(ren).collect(), n.clone()),
-                Ast::CV(o, l, rr) => Ast::CV(*o, l.iter().map(ren).collect(), rr.iter().map(ren).collect()),
+                Ast::CC(o, l, n) => Ast::CC(*o, l.iter().map(&ren).collect(), n.clone()),
+                Ast::CV(o, l, rr) => Ast::CV(*o, l.iter().map(&ren).collect(), rr.iter().map(&ren).collect()),
                 Ast::Ite(c, t, e) => Ast::Ite(Box::new(ren(c)), Box::new(ren(t)), Box::new(ren(e))),
                 Ast::Bin(o, l, rr) => Ast::Bin(*o, Box::new(ren(l)), Box::new(ren(rr))),
                 o => o.clone(),
@@ -347,14 +352,16 @@ fn run(ctx: &mut Ctx) {
                 }
             });
             for a in todo {
-                let ra = ren(&a);
-                let text = refl::pp(&ra, refl::MINIMAL);
-                if refl::parse(&text).as_ref() != Ok(&ra) {
-                    panic!("machinery: round trip failed for {text}");
-                }
-                if check_text(ctx, TAG, &ra, &text).is_some() {
-                    ctx.distinct(&text);
-                    ctx.count("asts_renamed", 1);
+                for set in 0..2 {
+                    let ra = ren(&a, set);
+                    let text = refl::pp(&ra, refl::MINIMAL);
+                    if refl::parse(&text).as_ref() != Ok(&ra) {
+                        panic!("machinery: round trip failed for {text}");
+                    }
+                    if check_text(ctx, TAG, &ra, &text).is_some() {
+                        ctx.distinct(&text);
+                        ctx.count("asts_renamed", 1);
+                    }
                 }
             }
         }
